@@ -270,6 +270,38 @@ def impl_main(payload):
                     seqv.append("the shrunk %s still requests optimisation after the wrapper (%s)" % (eq, method))
     finally:
         so.optimize = real_opt
+    # ---- the regressor wrapper on its REAL path (its own fitness function and optimizer), every metric with a root and two
+    # minimize methods, data with outliers (so least squares is not optimal for the absolute-error metric): the fitness it
+    # reports is the base fitness, UNDER THE CONFIGURED METRIC, of the constants the equation holds; fitting an equation that
+    # already holds good constants never makes them worse under that metric
+    x = np.linspace(-2, 2, 41).reshape(-1, 1)
+    y = 2 * x + 1
+    y[[5, 20, 33], 0] += [40.0, -35.0, 50.0]
+    for metric in ("mse", "mae", "rmse"):
+        for algo in ("lm", "BFGS", "Nelder-Mead"):
+            base = ExplicitRegression(ExplicitTrainingData(x, y), metric=metric)
+            np.random.seed(payload["seed"] % 1000 + seqn)
+            seqn += 1
+            for incumbent in (None, (2.0, 1.0)):
+                g = AGraph(equation="C_0*X_0 + C_1")
+                before = None
+                if incumbent is not None:
+                    g.set_local_optimization_params(incumbent)
+                    before = float(base(g.copy()))
+                try:
+                    EquationRegressor(g, metric=metric, algo=algo, fit_retries=2).fit(x, y)
+                except Exception as e:  # noqa
+                    seqv.append("EquationRegressor(metric=%r, algo=%r).fit raised %r" % (metric, algo, e))
+                    continue
+                held = tuple(float(v) for v in g.get_local_optimization_params())
+                want = float(base(g.copy()))
+                got = float(g.fitness)
+                if not (abs(got - want) <= 1e-12 * (1 + abs(want)) or (math.isnan(got) and math.isnan(want))):
+                    seqv.append("EquationRegressor(metric=%r, algo=%r): reported fitness %r, the %s of the constants held %r is %r"
+                                % (metric, algo, got, metric, held, want))
+                if before is not None and not want <= before * (1 + 1e-12):
+                    seqv.append("EquationRegressor(metric=%r, algo=%r): an equation holding constants %r (%s %r) was fitted again and now "
+                                "holds %r (%s %r)" % (metric, algo, incumbent, metric, before, held, metric, want))
     return dict(results=results, sequences=dict(runs=seqn, viol=seqv))
 
 
